@@ -104,7 +104,7 @@ def enumerate_sites(body, include_alloc=True, narrowing=False):
         elif n.startswith(PANIC_FNS):
             # explicit panic!/unreachable!/assert! — skip the ones that belong to a lowered `Assert`-like check of the std macros? keep all
             macros = c.macros
-            sites.append(Site(body, "panic", "panic!" if not macros else macros[0] + "!", c.span, c, c.bb))
+            sites.append(Site(body, "panic", "panic!" if not macros else macros[-1].rsplit("::", 1)[-1] + "!", c.span, c, c.bb))
         elif n in INDEX:
             sites.append(Site(body, "index", "index<%s>" % _short_ty(c.self_ty), c.span, c, c.bb))
         elif n in PANICKY:
@@ -209,6 +209,12 @@ def canon_place(body, pl):
         if body.debug_name(l) is not None or l <= body.nargs:
             break
         d = flow.single_def(body, l)
+        if d is not None and d[0] == "call" and strip_generics(d[2].callee) in flow.ADAPTERS and d[2].args and d[2].args[0].get("k") in ("copy", "move"):
+            # l = deref(&P) / as_mut(..): same storage as its receiver
+            a = d[2].args[0]["pl"]
+            proj = list(a["p"]) + proj
+            l = a["l"]
+            continue
         if d is None or d[0] != "assign":
             break
         rv = d[3]
@@ -336,6 +342,8 @@ def d5_counter(site, body):
             al = op_local(det.get("a", {}))
             if al is not None:
                 a_ty = body.local_ty(al)
+                if det["a"]["pl"]["p"]:
+                    a_ty = a_ty.replace("&mut ", "").replace("&", "")
             else:
                 a_ty = "usize"
             if a_ty in ("usize", "u64"):
@@ -695,5 +703,111 @@ def must_return_ok(F, body, memo=None):
             return False
     return True
 
+SHRINKERS = {"alloc::vec::Vec::swap_remove", "alloc::vec::Vec::remove", "alloc::vec::Vec::pop", "alloc::vec::Vec::truncate", "alloc::vec::Vec::clear",
+             "alloc::vec::Vec::drain", "alloc::vec::Vec::retain", "alloc::vec::Vec::split_off"}
 
-DEFAULT_RULES = [d1_option_guard, d2_map_guard, d4_infallible, d5_counter, rule_buffer_bounds, rule_alloc_size, rule_const_slice, rule_copy_from_slice, rule_sub_guard, rule_div_const, rule_narrowing_cast]
+
+def _vec_identity(body, op):
+    return place_identity(body, op) if op.get("k") in ("copy", "move") else None
+
+
+def rule_loop_index(site, body):
+    """vec[idx] / vec.swap_remove(idx) inside a sweep loop: a dominating guard idx < len(vec) whose bound is *fresh* —
+    re-read after every removal that can come back to the guard — and no removal between guard and use"""
+    if not (site.kind == "index" or (site.kind == "api" and site.what in ("Vec::swap_remove", "Vec::remove"))):
+        return None
+    c = site.call
+    if len(c.args) < 2:
+        return None
+    vec_id = _vec_identity(body, c.args[0])
+    idx_root = flow.root_local(body, c.args[1])
+    if vec_id is None or idx_root is None:
+        return None
+    lens = [x for x in body.calls() if strip_generics(x.callee) in ("alloc::vec::Vec::len", "core::slice::<impl [T]>::len") and x.dest and _vec_identity(body, x.args[0]) == vec_id]
+    shr = [x for x in body.calls() if strip_generics(x.callee) in SHRINKERS and _vec_identity(body, x.args[0]) == vec_id]
+    loops_ = flow.loops(body)
+    lp = None
+    for l in loops_:
+        if site.bb in l:
+            lp = l
+    if lp is None:
+        lp = set()
+    # (a) comparison guard idx < len
+    for op, x, y, gbb in cmp_guards(body, site.bb):
+        xi, yi = flow.root_local(body, x) if op_local(x) is not None else None, flow.root_local(body, y) if op_local(y) is not None else None
+        for lc in lens:
+            lv = flow.derived(body, {lc.dest["l"]}, calls=())
+            is_lt = (op == "Lt" and xi == idx_root and op_local(y) in lv) or (op == "Gt" and yi == idx_root and op_local(x) in lv)
+            if not is_lt:
+                continue
+            glp = lp
+            if gbb not in glp:
+                glp = next((l for l in loops_ if gbb in l), set())     # the use sits on a path that leaves the sweep loop (break / return)
+            lp_ = glp
+            sc = flow.switch_condition(body, gbb)
+            edge = sc["true"] if sc["op"] == op else sc["false"]
+            # no removal between guard and use
+            between = flow.reach_avoiding(body, [edge], [gbb])
+            pre = [h for h in shr if h.bb in between and site.bb in flow.reach_avoiding(body, [h.target], [gbb]) and h is not c]
+            if pre:
+                continue
+            # freshness: every removal in the loop that can reach the guard again must pass the len() call first
+            stale = [h for h in shr if gbb in flow.reach_avoiding(body, [h.target] if h.target is not None else [], [lc.bb])]
+            if lc.bb not in lp_:
+                stale = [h for h in shr if gbb in flow.reach_avoiding(body, [h.target] if h.target is not None else [], [])]
+            if stale:
+                continue
+            return "loop-index: guarded by idx < len() (bb%d) with the bound re-read after every removal" % gbb
+    # (b) `for i in 0..vec.len()`: index from a Range iterator whose end is len(); removal only on paths that leave the loop
+    r = flow.payload_source(body, c.args[1])
+    if r and r[0] == "call" and strip_generics(r[1].callee) == "core::iter::traits::iterator::Iterator::next" and "Range<usize>" in r[1].self_ty:
+        nxt = r[1]
+        for l in loops_:
+            if nxt.bb in l:
+                lp = l
+        stale = [h for h in shr if h.bb in lp and nxt.bb in flow.reach_avoiding(body, [h.target] if h.target is not None else [], [])]
+        pre = [h for h in shr if h.bb in lp and h is not c and site.bb in flow.reach_avoiding(body, [h.target] if h.target is not None else [], [nxt.bb])]
+        rng_ok = False
+        for i, j, pl, rv, st in body.assigns():
+            if rv["k"] == "agg" and rv.get("adt", "").endswith("ops::range::Range") and flow.const_of(rv["ops"][0]) == 0:
+                er = flow.root(body, rv["ops"][1])
+                if er[0] == "call" and er[1] in lens:
+                    rng_ok = True
+        if rng_ok and not stale and not pre:
+            return "loop-index: index drawn from 0..len(); the only removal leaves the loop"
+    return None
+
+
+def rule_sub_one_guard(site, body):
+    """L - 1 where some x < L dominates (unsigned => L >= 1)"""
+    if site.kind != "assert" or site.what != "overflow:Sub":
+        return None
+    det = site.extra.get("detail", {})
+    if flow.const_of(det.get("b", {})) != 1:
+        return None
+    al = op_local(det.get("a", {}))
+    ar = flow.root_local(body, det["a"]) if al is not None else None
+    # L and the guard's bound may be two reads of the same vector's len() with no removal in between
+    ra = flow.root(body, det["a"]) if al is not None else ("x",)
+    if ra[0] == "call" and strip_generics(ra[1].callee) in ("alloc::vec::Vec::len", "core::slice::<impl [T]>::len"):
+        vid = _vec_identity(body, ra[1].args[0])
+        shr = [h for h in body.calls() if strip_generics(h.callee) in SHRINKERS and _vec_identity(body, h.args[0]) == vid]
+        for op, x, y, gbb in cmp_guards(body, site.bb):
+            for side, opn in ((y, "Lt"), (x, "Gt")):
+                if op == opn and op_local(side) is not None:
+                    rs = flow.root(body, side)
+                    if rs[0] == "call" and strip_generics(rs[1].callee) == strip_generics(ra[1].callee) and _vec_identity(body, rs[1].args[0]) == vid:
+                        sc = flow.switch_condition(body, gbb)
+                        edge = sc["true"] if sc["op"] == op else sc["false"]
+                        between = flow.reach_avoiding(body, [edge], [gbb])
+                        if not [h for h in shr if h.bb in between and site.bb in flow.reach_avoiding(body, [h.target] if h.target is not None else [], [gbb])]:
+                            return "x < v.len() dominates v.len() - 1 with no removal in between (bb%d)" % gbb
+    for op, x, y, gbb in cmp_guards(body, site.bb):
+        if op == "Lt" and (flow.root_local(body, y) if op_local(y) is not None else None) == ar:
+            return "x < L dominates L - 1 (bb%d)" % gbb
+        if op == "Gt" and (flow.root_local(body, x) if op_local(x) is not None else None) == ar:
+            return "L > x dominates L - 1 (bb%d)" % gbb
+    return None
+
+
+DEFAULT_RULES = [rule_loop_index, rule_sub_one_guard, d1_option_guard, d2_map_guard, d4_infallible, d5_counter, rule_buffer_bounds, rule_alloc_size, rule_const_slice, rule_copy_from_slice, rule_sub_guard, rule_div_const, rule_narrowing_cast]
